@@ -154,4 +154,20 @@ Proof.
   split; [exists npad; split; assumption|].
   rewrite cw_ok, (decode_script _ _ SO). unfold meaning. cbn [flat_map segment_data]. rewrite app_nil_r, GD. reflexivity.
 Qed.
+
+(* ... and under that plan the entry point is total: a value or an error, never a panic *)
+Theorem ascii_plan_total data symbols modes :
+  optimize_fn data 0 symbols modes = Ok (Some [(0, Ascii)]) ->
+  no_panic (encode_data_internal optimize_fn data symbols None modes false false).
+Proof.
+  intros HP. unfold encode_data_internal. cbv zeta. cbn [bind]. set (e := with_size data symbols modes false).
+  unfold codewords. destruct (e_symbols e) as [|s0 sr] eqn:ES; [exact I|]. rewrite <- ES.
+  destruct (_ <? _); [exact I|]. destruct (upper_limit_for_number_of_codewords _ _); [|exact I].
+  change (e_data e) with data. change (cw_len e) with 0. change (e_symbols e) with symbols. change (e_modes e) with modes.
+  rewrite HP. cbn [lift bind].
+  set (e0 := mkenc _ _ _ _ _ _ _ _).
+  destruct (main_loop_stays (6 * length (e_data e0) + 12) e0 ltac:(split; reflexivity) eq_refl ltac:(lia)) as (e1 & A & _).
+  rewrite A. cbn [bind]. destruct (symbol_for e1 0) as [s'|] eqn:SF; [|exact I].
+  destruct (add_padding_total e1 s' SF) as (e2 & ->). exact I.
+Qed.
 End AsciiPlan.
